@@ -63,6 +63,10 @@ ProbeRules(e) ==
        IN (IF \E k \in lo..hi : DumpMatches(H[k], e.dump) THEN <<>>
            ELSE <<"C01,C07:recovered-state-is-not-a-prefix-containing-every-stable-operation">> \o DumpRules(H[hi], e.dump))
           \o FS!StructRules(e.snap)
+          (* start-up may not read a home block around the recovered log when the log holds a newer version of it   *)
+          (* (exempt: the block of the root inode, read only to decide whether the disk was ever formatted)         *)
+          \o (IF \E i \in 1..Len(e.rawreads) : e.rawreads[i].h # e.rawreads[i].logged /\ e.rawreads[i].addr # e.inostart
+              THEN <<"C01,C04:start-up-reads-a-block-around-the-recovered-log">> ELSE <<>>)
 
 (* crash in a continuation segment: the state becomes a durable-or-later prefix, possibly *)
 (* including the call that was in flight, bound from the dump                              *)
@@ -96,7 +100,9 @@ Consume ==
           /\ IF bad
              THEN (* the reference state is out of step, but the structure of the disk can still be judged *)
                   /\ UNCHANGED <<s, bad>>
-                  /\ IF e.ev = "snap" /\ FS!StructRules(e) # <<>> THEN Report(l, FS!StructRules(e), e) ELSE TRUE
+                  /\ IF e.ev = "snap" /\ FS!StructRules(e) # <<>> THEN Report(l, FS!StructRules(e), e)
+                     ELSE IF e.ev = "call" /\ e.st \in {"PANIC", "TIMEOUT"} THEN Report(l, StatusRules(s, e, "OK"), e)   \* no reply is never acceptable
+                     ELSE TRUE
              ELSE CASE e.ev = "call" ->
                          LET v == Check(s, e) IN
                          IF v = <<>> THEN s' = Next(s, e) /\ bad' = FALSE
